@@ -99,7 +99,8 @@ def lean_run_file(text, timeout=900):
 
 def audit(module, theorems):
     """`#print axioms` for every property theorem; returns {name: [axioms] | None (missing)}."""
-    src = "import %s\n" % module + "".join("#print axioms %s\n" % t for t in theorems)
+    mods = module if isinstance(module, (list, tuple)) else [module]
+    src = "".join("import %s\n" % m for m in mods) + "".join("#print axioms %s\n" % t for t in theorems)
     rc, out = lean_run_file(src)
     res = {}
     for t in theorems:
@@ -344,10 +345,17 @@ class Check:
         cov.setdefault("samples", self.samples[:8] or ["(no samples)"])
         cov.setdefault("histogram", self.hist)
         cov["known_findings"] = self.known
-        # an undischarged obligation with no concrete failing input is still a violation
-        for n, ok, d in self.obligations:
-            if not ok and not any(v[0] == "obligation:" + n for v in self.violations):
-                self.add_violation("obligation:" + n, {"obligation": n, "detail": d[-4000:]}, no_input=True)
+        # an undischarged obligation is a violation: reported with the concrete failing input the search
+        # found, or -- when it found none -- once, naming every obligation that no longer checks
+        failed = [(n, d) for n, ok, d in self.obligations if not ok]
+        concrete = [v for v in self.violations if not v[2]]
+        if failed and not concrete:
+            self.violations = [("obligations", {"unchecked": [{"obligation": n, "detail": d[-3000:]} for n, d in failed]}, True)]
+        elif failed:
+            for v in concrete:
+                if isinstance(v[1], dict):
+                    v[1]["obligations_no_longer_checked"] = [n for n, _ in failed]
+            self.violations = concrete
         lines = []
         for fn in os.listdir(REPLAYS):
             if fn.startswith(self.prop + "-"):
